@@ -182,8 +182,18 @@ class MerkleFamily(Family):
                             ln, int(f * ln) % ln, False,
                             lambda before: before + [v for v in versions if v not in before], 'in flight')))
                     await asyncio.sleep(ch.delay(0.0, op['lat'] or 0.001))
-                    truncate(1 + ch.choose(len(leaves)), True)
-                    res.probes['truncate_during_inflight'] += 1
+                    mode = ch.choose(3)
+                    if mode == 0:
+                        # overlapping extensions only: nothing is truncated
+                        res.probes['concurrent_extensions_only'] += 1
+                    else:
+                        if mode == 1 and cache.length < len(leaves):
+                            # a block above the cached length is undone while an extension past it waits
+                            tl = cache.length + ch.choose(len(leaves) - cache.length)
+                        else:
+                            tl = 1 + ch.choose(len(leaves))
+                        truncate(max(1, tl), True)
+                        res.probes['truncate_during_inflight'] += 1
                     await asyncio.gather(*tasks)
             # afterwards (nothing in flight) only the current list qualifies - for every (length, index)
             rng = random.Random(op['seed'])
